@@ -27,6 +27,8 @@ def gen_cases(tier, seed):
         cases.append({"kind": "bn", "rank": rank, "C": int(rng.integers(1, 4)), "momentum": [0.1, 0.5, 1.0, None][int(rng.integers(4))],
                       "affine": bool(rng.integers(2)), "track": bool(rng.random() < 0.75), "dtype": ["float32", "float64"][k % 2],
                       "eps": float(rng.choice([1e-5, 1e-3])), "n_events": int(rng.integers(5, 31)), "seed": int(rng.integers(2 ** 31))})
+    for k in range(6 if tier == "quick" else 60):
+        cases.append({"kind": "nested-mode", "seed": int(rng.integers(2 ** 31)), "variant": k})
     for p in (0, 0.1, 0.3, 0.5, 0.9, 1):
         for dt in ("float32", "float64"):
             for rep in range(1 if tier == "quick" else 6):
@@ -257,7 +259,45 @@ def run_dropout(ns, c):
             "cover": {"dropout_p": [str(p)]}}
 
 
+def run_nested(ns, c):
+    """mode-dependent layers inside a parent: whatever history of train()/eval() calls on parent and children, after parent.eval() every
+    Dropout below it is the identity and every BatchNorm uses (and keeps) its running statistics; after parent.train() they are active"""
+    nn, T = ns.nn, ns.Tensor
+    rng = gen.rng_for(c["seed"], "nest")
+    np.random.seed(c["seed"] % 2 ** 32)
+    drop, bn = nn.Dropout(0.5), nn.BatchNorm1d(4)
+    inner = nn.Sequential(nn.Linear(4, 4), drop)
+    model = nn.Sequential(inner, bn)
+    viol, events = [], []
+    x = T((rng.standard_normal((64, 4)) + 3.0).astype(np.float32))
+    n = 0
+    for step in range(int(rng.integers(3, 9))):
+        target = [model, inner, drop, bn][int(rng.integers(4))]
+        to_train = bool(rng.integers(2))
+        (target.train if to_train else target.eval)()
+        events.append(f"{['model', 'inner', 'drop', 'bn'][[model, inner, drop, bn].index(target)]}.{'train' if to_train else 'eval'}()")
+        if target is model:
+            n += 1
+            h = inner.submodules()[0](x)
+            yd = drop(h)
+            active = not np.array_equal(yd.data, h.data)
+            if active != to_train:
+                viol.append(V("nested-mode:dropout-mode-after-parent-switch", f"after the parent's {'train' if to_train else 'eval'}() the Dropout below it is "
+                              f"{'active' if active else 'the identity'}", events=list(events)))
+            before = (bn.running_mean.data.copy(), int(bn.num_batches_tracked))
+            bn(T(rng.standard_normal((8, 4)).astype(np.float32)))
+            changed = not np.array_equal(before[0], bn.running_mean.data) or before[1] != int(bn.num_batches_tracked)
+            if changed != to_train:
+                viol.append(V("nested-mode:batch-norm-mode-after-parent-switch", f"after the parent's {'train' if to_train else 'eval'}() the BatchNorm below it "
+                              f"{'updated' if changed else 'did not update'} its running statistics", events=list(events)))
+    return {"key": ("nested-mode", json.dumps(events)) if n else None, "viol": dedup(viol), "counters": {"nested_mode_probes": n}, "cover": {"event_kinds": ["nested-mode"]}}
+
+
 def run_case(ns, mon, c):
+    if c["kind"] == "nested-mode":
+        r = run_nested(ns, c)
+        r["viol"] = r.get("viol", []) + mon.drain()
+        return r
     r = run_bn(ns, c) if c["kind"] == "bn" else run_dropout(ns, c)
     r["viol"] = r.get("viol", []) + [v for v in mon.drain() if not v["sig"].startswith(("grad-dtype", "release"))]
     return r
